@@ -1,6 +1,7 @@
 (* Infrastructure for the object-level refinement of the result-class generator (C01 / C05):
    inversion of the monadic folds of parse_type_def, the _public_names invariant, fields-only
-   selection sets, leaves, wrappers, and the boolean guard sels_ok. *)
+   selection sets, agreement of the two fragment flattenings (flatten), leaves, wrappers, and the
+   boolean guard sels_ok. *)
 From Coq Require Import List String Ascii Bool Arith Lia ZArith.
 From AC Require Import Base.Strs Base.Sexp Base.Json Gql.Schema Gql.Exec Py.Ann Py.Pydantic
      Model.Names Model.Results Proofs.ResultsP.
@@ -341,6 +342,266 @@ Proof.
 Qed.
 
 (* ------------------------------------------------------------------------------------------- *)
+(* 3b. Fragments that both sides flatten alike                                                  *)
+
+(* ------------------------------------------------------------------------------------------- *)
+(* The selection sets on which the generator's _resolve_selection_set (against root r) and the     *)
+(* executor's CollectFields (for the runtime OBJECT type rt) flatten fragments to the same fields. *)
+(* Fragments must be unconditional (F3) and every type condition must be judged alike by both      *)
+(* sides (F4); spreads must be of the unpacked kind (mixin spreads become base classes).           *)
+
+Definition flatten_step (rec : string -> list sel -> option (list fnode))
+           (S : schema) (frs : list fragdef) (rt r : string)
+           (acc : option (list fnode)) (s : sel) : option (list fnode) :=
+  match acc with
+  | None => None
+  | Some l =>
+      match s with
+      | SField al n c ms sub => Some (l ++ [fnode_of al n c ms sub])
+      | SInline (Some tc) false sub =>
+          match inline_root_type S tc r, type_applies S rt tc with
+          | Some r', true => match rec r' sub with Some l' => Some (l ++ l') | None => None end
+          | None, false => Some l
+          | _, _ => None
+          end
+      | SSpread n false =>
+          match lookup_frag frs n with
+          | Some f =>
+              match lookup_type S r, lookup_type S (fr_on f) with
+              | Some _, Some fd =>
+                  if unpack_fragment S f (Some r) then
+                    if String.eqb (fr_on f) r || (is_abstract fd && is_sub_type S (fr_on f) r)
+                    then (if type_applies S rt (fr_on f)
+                          then match rec r (fr_sel f) with Some l' => Some (l ++ l') | None => None end
+                          else None)
+                    else (if type_applies S rt (fr_on f) then None else Some l)
+                  else None
+              | _, _ => None
+              end
+          | None => None
+          end
+      | _ => None
+      end
+  end.
+
+Fixpoint flatten (fuel : nat) (S : schema) (frs : list fragdef) (rt r : string) (sels : list sel)
+  : option (list fnode) :=
+  match fuel with
+  | O => None
+  | Datatypes.S g => fold_left (flatten_step (flatten g S frs rt) S frs rt r) sels (Some [])
+  end.
+
+Lemma flatten_fold_none rec S frs rt r sels : fold_left (flatten_step rec S frs rt r) sels None = None.
+Proof. induction sels; simpl; auto. Qed.
+
+Lemma resolve_fold_err rec S frs r sels m : fold_left (resolve_step rec S frs r) sels (Err m) = Err m.
+Proof. induction sels; simpl; auto. Qed.
+
+Lemma collect_fold_none rec S frs rt under sels :
+  fold_left (collect_step rec S frs rt under) sels None = None.
+Proof. induction sels; simpl; auto. Qed.
+
+Section Agree.
+  Variables (S : schema) (frs : list fragdef) (rt : string).
+
+  (* resolve: whenever it succeeds it returns the flattened fields and no mixin *)
+  Lemma flatten_resolve_det : forall g f r sels fns x,
+    flatten g S frs rt r sels = Some fns -> resolve f S frs sels r = Ok x -> x = (fns, []).
+  Proof.
+    induction g as [|g IH]; intros f r sels fns x Hf Hr; [discriminate Hf|].
+    destruct f as [|f]; [discriminate Hr|]. simpl in Hf, Hr.
+    assert (G : forall sels l1 l0 m0 fns x,
+              fold_left (flatten_step (flatten g S frs rt) S frs rt r) sels (Some l1) = Some fns ->
+              fold_left (resolve_step (resolve f S frs) S frs r) sels (Ok (l0, m0)) = Ok x ->
+              exists d, fns = l1 ++ d /\ x = (l0 ++ d, m0)).
+    { clear Hf Hr fns x sels. induction sels as [|s sels IHs]; intros l1 l0 m0 fns x Hf Hr; simpl in Hf, Hr.
+      - inversion Hf; inversion Hr; subst. exists []. rewrite !app_nil_r. auto.
+      - destruct s as [al n c ms sub | n c | tc c sub].
+        + simpl in Hf, Hr. destruct (IHs _ _ _ _ _ Hf Hr) as [d [H1 H2]].
+          exists (fnode_of al n c ms sub :: d). subst. rewrite <- !app_assoc. auto.
+        + simpl in Hf, Hr. destruct c; [rewrite flatten_fold_none in Hf; discriminate|].
+          destruct (lookup_frag frs n) as [fd|]; [| rewrite flatten_fold_none in Hf; discriminate].
+          destruct (lookup_type S r) as [dr|]; [| rewrite flatten_fold_none in Hf; discriminate].
+          destruct (lookup_type S (fr_on fd)) as [df|]; [| rewrite flatten_fold_none in Hf; discriminate].
+          destruct (unpack_fragment S fd (Some r)); [| rewrite flatten_fold_none in Hf; discriminate].
+          simpl in Hr.
+          destruct (String.eqb (fr_on fd) r || (is_abstract df && is_sub_type S (fr_on fd) r)).
+          * destruct (type_applies S rt (fr_on fd)); [| rewrite flatten_fold_none in Hf; discriminate].
+            destruct (flatten g S frs rt r (fr_sel fd)) as [l'|] eqn:El;
+              [| rewrite flatten_fold_none in Hf; discriminate].
+            destruct (resolve f S frs (fr_sel fd) r) as [q|m] eqn:Eq; simpl in Hr;
+              [| rewrite resolve_fold_err in Hr; discriminate].
+            rewrite (IH _ _ _ _ _ El Eq) in Hr. simpl in Hr. rewrite app_nil_r in Hr.
+            destruct (IHs _ _ _ _ _ Hf Hr) as [d [H1 H2]]. exists (l' ++ d). subst. rewrite <- !app_assoc. auto.
+          * destruct (type_applies S rt (fr_on fd)); [rewrite flatten_fold_none in Hf; discriminate|].
+            apply (IHs _ _ _ _ _ Hf Hr).
+        + simpl in Hf, Hr. destruct tc as [tc|]; [| rewrite flatten_fold_none in Hf; discriminate].
+          destruct c; [rewrite flatten_fold_none in Hf; discriminate|].
+          destruct (inline_root_type S tc r) as [r'|].
+          * destruct (type_applies S rt tc); [| rewrite flatten_fold_none in Hf; discriminate].
+            destruct (flatten g S frs rt r' sub) as [l'|] eqn:El;
+              [| rewrite flatten_fold_none in Hf; discriminate].
+            destruct (resolve f S frs sub r') as [q|m] eqn:Eq; simpl in Hr;
+              [| rewrite resolve_fold_err in Hr; discriminate].
+            rewrite (IH _ _ _ _ _ El Eq) in Hr. simpl in Hr. rewrite app_nil_r in Hr.
+            destruct (IHs _ _ _ _ _ Hf Hr) as [d [H1 H2]]. exists (l' ++ d). subst. rewrite <- !app_assoc. auto.
+          * destruct (type_applies S rt tc); [rewrite flatten_fold_none in Hf; discriminate|].
+            apply (IHs _ _ _ _ _ Hf Hr). }
+    destruct (G _ _ _ _ _ _ Hf Hr) as [d [H1 H2]]. simpl in *. subst. reflexivity.
+  Qed.
+
+  Ltac kill Hf := rewrite flatten_fold_none in Hf; discriminate Hf.
+
+  (* collect: whenever it succeeds it returns the nodes of the flattened fields *)
+  Lemma flatten_collect_det : forall g f r under sels fns l,
+    flatten g S frs rt r sels = Some fns -> collect f S frs rt under sels = Some l ->
+    l = map (node_of_fnode under) fns.
+  Proof.
+    induction g as [|g IH]; intros f r under sels fns l Hf Hc; [discriminate Hf|].
+    destruct f as [|f]; [discriminate Hc|]. simpl in Hf, Hc.
+    assert (G : forall sels l1 l0 fns l,
+              fold_left (flatten_step (flatten g S frs rt) S frs rt r) sels (Some l1) = Some fns ->
+              fold_left (collect_step (collect f S frs rt) S frs rt under) sels (Some l0) = Some l ->
+              exists d, fns = l1 ++ d /\ l = l0 ++ map (node_of_fnode under) d).
+    { clear Hf Hc fns l sels. induction sels as [|s sels IHs]; intros l1 l0 fns l Hf Hc; simpl in Hf, Hc.
+      - inversion Hf; inversion Hc; subst. exists []. simpl. rewrite !app_nil_r. auto.
+      - destruct s as [al n c ms sub | n c | tc c sub].
+        + simpl in Hf, Hc. destruct (IHs _ _ _ _ Hf Hc) as [d [H1 H2]].
+          exists (fnode_of al n c ms sub :: d). subst. simpl. rewrite <- !app_assoc. auto.
+        + simpl in Hf, Hc. destruct c; [kill Hf|].
+          destruct (lookup_frag frs n) as [fd|]; [| kill Hf].
+          destruct (lookup_type S r) as [dr|]; [| kill Hf].
+          destruct (lookup_type S (fr_on fd)) as [df|]; [| kill Hf].
+          destruct (unpack_fragment S fd (Some r)); [| kill Hf].
+          rewrite orb_false_r in Hc.
+          destruct (String.eqb (fr_on fd) r || (is_abstract df && is_sub_type S (fr_on fd) r)).
+          * destruct (type_applies S rt (fr_on fd)); [| kill Hf].
+            destruct (flatten g S frs rt r (fr_sel fd)) as [l'|] eqn:El; [| kill Hf].
+            destruct (collect f S frs rt under (fr_sel fd)) as [q|] eqn:Eq;
+              [| rewrite collect_fold_none in Hc; discriminate].
+            rewrite (IH _ _ _ _ _ _ El Eq) in Hc.
+            destruct (IHs _ _ _ _ Hf Hc) as [d [H1 H2]]. exists (l' ++ d). subst.
+            rewrite map_app, <- !app_assoc. auto.
+          * destruct (type_applies S rt (fr_on fd)); [kill Hf|].
+            apply (IHs _ _ _ _ Hf Hc).
+        + simpl in Hf, Hc. destruct tc as [tc|]; [| kill Hf].
+          destruct c; [kill Hf|]. rewrite orb_false_r in Hc.
+          destruct (inline_root_type S tc r) as [r'|].
+          * destruct (type_applies S rt tc); [| kill Hf].
+            destruct (flatten g S frs rt r' sub) as [l'|] eqn:El; [| kill Hf].
+            destruct (collect f S frs rt under sub) as [q|] eqn:Eq;
+              [| rewrite collect_fold_none in Hc; discriminate].
+            rewrite (IH _ _ _ _ _ _ El Eq) in Hc.
+            destruct (IHs _ _ _ _ Hf Hc) as [d [H1 H2]]. exists (l' ++ d). subst.
+            rewrite map_app, <- !app_assoc. auto.
+          * destruct (type_applies S rt tc); [kill Hf|].
+            apply (IHs _ _ _ _ Hf Hc). }
+    destruct (G _ _ _ _ _ Hf Hc) as [d [H1 H2]]. simpl in *. subst. reflexivity.
+  Qed.
+
+  (* with at least the guard's fuel both succeed *)
+  Lemma flatten_both_ex : forall g r sels fns,
+    flatten g S frs rt r sels = Some fns ->
+    forall f, f >= g ->
+      resolve f S frs sels r = Ok (fns, []) /\
+      (forall under, collect f S frs rt under sels = Some (map (node_of_fnode under) fns)).
+  Proof.
+    induction g as [|g IH]; intros r sels fns Hf f Hge; [discriminate Hf|].
+    destruct f as [|f]; [lia|]. assert (Hge' : f >= g) by lia. simpl in Hf. simpl.
+    assert (G : forall sels l1 fns,
+              fold_left (flatten_step (flatten g S frs rt) S frs rt r) sels (Some l1) = Some fns ->
+              exists d, fns = l1 ++ d /\
+                (forall l0 m0, fold_left (resolve_step (resolve f S frs) S frs r) sels (Ok (l0, m0))
+                               = Ok (l0 ++ d, m0)) /\
+                (forall under l0, fold_left (collect_step (collect f S frs rt) S frs rt under) sels (Some l0)
+                                  = Some (l0 ++ map (node_of_fnode under) d))).
+    { clear Hf fns sels. induction sels as [|s sels IHs]; intros l1 fns Hf; simpl in Hf.
+      - inversion Hf; subst. exists []. simpl. split; [rewrite app_nil_r; reflexivity|].
+        split; intros; rewrite app_nil_r; reflexivity.
+      - destruct s as [al n c ms sub | n c | tc c sub].
+        + simpl in Hf. destruct (IHs _ _ Hf) as [d [H1 [H2 H3]]].
+          exists (fnode_of al n c ms sub :: d). subst. split; [rewrite <- app_assoc; reflexivity|].
+          split; intros; simpl; [rewrite H2 | rewrite H3]; rewrite <- app_assoc; reflexivity.
+        + simpl in Hf. destruct c; [kill Hf|].
+          destruct (lookup_frag frs n) as [fd|] eqn:Elf; [| kill Hf].
+          destruct (lookup_type S r) as [dr|] eqn:Elr; [| kill Hf].
+          destruct (lookup_type S (fr_on fd)) as [df|] eqn:Elo; [| kill Hf].
+          destruct (unpack_fragment S fd (Some r)) eqn:Eu; [| kill Hf].
+          destruct (String.eqb (fr_on fd) r || (is_abstract df && is_sub_type S (fr_on fd) r)) eqn:Eb.
+          * destruct (type_applies S rt (fr_on fd)) eqn:Et; [| kill Hf].
+            destruct (flatten g S frs rt r (fr_sel fd)) as [l'|] eqn:El; [| kill Hf].
+            destruct (IH _ _ _ El f Hge') as [R1 R2].
+            destruct (IHs _ _ Hf) as [d [H1 [H2 H3]]]. exists (l' ++ d). subst.
+            split; [rewrite <- app_assoc; reflexivity|].
+            split; intros; simpl; rewrite Elf.
+            -- rewrite Elr, Elo, Eu, Eb, R1. simpl. rewrite app_nil_r, H2, <- app_assoc. reflexivity.
+            -- rewrite Et, orb_false_r, R2, H3, map_app, <- app_assoc. reflexivity.
+          * destruct (type_applies S rt (fr_on fd)) eqn:Et; [kill Hf|].
+            destruct (IHs _ _ Hf) as [d [H1 [H2 H3]]]. exists d. split; [exact H1|].
+            split; intros; simpl; rewrite Elf.
+            -- rewrite Elr, Elo, Eu, Eb. simpl. apply H2.
+            -- rewrite Et. apply H3.
+        + simpl in Hf. destruct tc as [tc|]; [| kill Hf]. destruct c; [kill Hf|].
+          destruct (inline_root_type S tc r) as [r'|] eqn:Ei.
+          * destruct (type_applies S rt tc) eqn:Et; [| kill Hf].
+            destruct (flatten g S frs rt r' sub) as [l'|] eqn:El; [| kill Hf].
+            destruct (IH _ _ _ El f Hge') as [R1 R2].
+            destruct (IHs _ _ Hf) as [d [H1 [H2 H3]]]. exists (l' ++ d). subst.
+            split; [rewrite <- app_assoc; reflexivity|].
+            split; intros; simpl.
+            -- rewrite Ei, R1. simpl. rewrite app_nil_r, H2, <- app_assoc. reflexivity.
+            -- rewrite Et, orb_false_r, R2, H3, map_app, <- app_assoc. reflexivity.
+          * destruct (type_applies S rt tc) eqn:Et; [kill Hf|].
+            destruct (IHs _ _ Hf) as [d [H1 [H2 H3]]]. exists d. split; [exact H1|].
+            split; intros; simpl.
+            -- rewrite Ei. apply H2.
+            -- rewrite Et. apply H3. }
+    destruct (G _ _ _ Hf) as [d [H1 [H2 H3]]]. simpl in H1. subst d.
+    split; [apply (H2 [] []) | intro under; apply (H3 under [])].
+  Qed.
+End Agree.
+
+Lemma flatten_det S frs rt r sels g1 g2 a b :
+  flatten g1 S frs rt r sels = Some a -> flatten g2 S frs rt r sels = Some b -> a = b.
+Proof.
+  intros H1 H2.
+  destruct (flatten_both_ex S frs rt _ _ _ _ H1 (max g1 g2) (Nat.le_max_l _ _)) as [R1 _].
+  destruct (flatten_both_ex S frs rt _ _ _ _ H2 (max g1 g2) (Nat.le_max_r _ _)) as [R2 _].
+  rewrite R1 in R2. inversion R2. reflexivity.
+Qed.
+
+(* fields-only selection sets are in the sub-language, and flatten is the identity on them *)
+Lemma flatten_fields_only S frs rt r g sels :
+  fields_only sels = true -> flatten (Datatypes.S g) S frs rt r sels = Some (fnodes_of sels).
+Proof.
+  simpl.
+  assert (G : forall l0, fields_only sels = true ->
+            fold_left (flatten_step (flatten g S frs rt) S frs rt r) sels (Some l0) = Some (l0 ++ fnodes_of sels)).
+  { induction sels as [|s sels IH]; intros l0 H; simpl.
+    - rewrite app_nil_r. reflexivity.
+    - simpl in H. apply andb_true_iff in H as [H1 H2]. destruct s; try discriminate.
+      simpl. rewrite IH; auto. rewrite <- app_assoc. reflexivity. }
+  intro H. apply (G [] H).
+Qed.
+
+Lemma collect_scopes_flat S frs rt fc sels g fns l :
+  flatten g S frs rt rt sels = Some fns ->
+  collect_scopes fc S frs rt [(false, sels)] = Some l -> l = map (node_of_fnode false) fns.
+Proof.
+  intros Hf Hc. unfold collect_scopes in Hc. cbn [fold_left fst snd] in Hc.
+  destruct (collect fc S frs rt false sels) as [l'|] eqn:E; [| discriminate].
+  inversion Hc; subst. simpl. eapply flatten_collect_det; eauto.
+Qed.
+
+Lemma collect_scopes_flat_ex S frs rt fc sels g fns :
+  flatten g S frs rt rt sels = Some fns -> fc >= g ->
+  collect_scopes fc S frs rt [(false, sels)] = Some (map (node_of_fnode false) fns).
+Proof.
+  intros Hf Hge. unfold collect_scopes. cbn [fold_left fst snd].
+  destruct (flatten_both_ex S frs rt _ _ _ _ Hf fc Hge) as [_ R]. rewrite R. reflexivity.
+Qed.
+
+(* ------------------------------------------------------------------------------------------- *)
 (* 4. Leaves: what GraphQL's result coercion produces is accepted by the generated annotation     *)
 
 Lemma scalar_leaf_accepts C S clsacc enums n j :
@@ -500,14 +761,18 @@ Definition field_ok (rec : string -> list sel -> bool) (S : schema) (nested : bo
     end.
 
 (* [cov]: additionally require pairwise distinct Python field names (needed for preservation) *)
-Fixpoint sels_ok (fuel : nat) (cov : bool) (C : cfg) (S : schema) (nested : bool) (tn : string)
-         (sels : list sel) : bool :=
+Fixpoint sels_ok (fuel : nat) (cov : bool) (C : cfg) (S : schema) (frs : list fragdef) (nested : bool)
+         (tn : string) (sels : list sel) : bool :=
   match fuel with
   | O => false
   | Datatypes.S g =>
-      fields_only sels && keys_ok C (map field_key (fnodes_of sels)) &&
-      (negb cov || nodupb (map (fun f => py_field_name C (field_key f)) (fnodes_of sels))) &&
-      forallb (field_ok (sels_ok g cov C S true) S nested tn) (fnodes_of sels)
+      match flatten g S frs tn tn sels with
+      | Some fns =>
+          keys_ok C (map field_key fns) &&
+          (negb cov || nodupb (map (fun f => py_field_name C (field_key f)) fns)) &&
+          forallb (field_ok (sels_ok g cov C S frs true) S nested tn) fns
+      | None => false
+      end
   end.
 
 Definition is_object (S : schema) (n : string) : bool :=
